@@ -449,6 +449,12 @@ func registerHarness(e *Engine) {
 		return c.Return(nil)
 	}
 	e.Intr["harness.vfNative"] = func(c *Call) []*State { return c.Return(False) }
+	// vfNoSample(): this path stays in the exploration but is not used as a translator-validation
+	// sample (its native run is impractical, e.g. it waits minutes on real timers)
+	e.Intr["harness.vfNoSample"] = func(c *Call) []*State {
+		c.St.NoReplay = true
+		return c.Return(nil)
+	}
 	e.Intr["harness.vfSetUnwind"] = func(c *Call) []*State { return c.Return(nil) }
 	e.Intr["harness.vfGhostSet"] = func(c *Call) []*State {
 		c.St.Ghost["g:"+c.constStr(0)] = c.Args[1]
